@@ -2,6 +2,7 @@
 import XV.Driver.Util
 import XV.Model.Decode
 import XV.Model.Operand
+import XV.Model.StackEffect
 import XV.Spec.Dis
 import XV.Spec.OpTables
 namespace XV.Driver
@@ -93,4 +94,14 @@ def operandDispatch (op : String) (args : List String) : Option String :=
         | .error _ => "err:IndexError")
   | _, _ => none
 
+end XV.Driver
+
+namespace XV.Driver
+open XV XV.Model
+def effectDispatch (op : String) (args : List String) : Option String :=
+  match op, args with
+  | "x.effect", [tn, o, a] => do
+      let t ← tableByName tn; let o ← parseNat o; let a ← parseNat a
+      pure (match Model.StackEffect.effect t o a with | some e => toString e | none => "None")
+  | _, _ => none
 end XV.Driver
